@@ -510,7 +510,7 @@ func badQueryValue(r *rand.Rand, k string) (string, bool) {
 	case "balanceOperator":
 		return gen.Pick(r, []string{"eq", "bad", "<", "$gt"}), false
 	case "sort":
-		return gen.Pick(r, []string{"id:sideways", "id:", ":", "id:asc:desc"}), false
+		return gen.Pick(r, []string{"id:sideways", "id:", ":", "id:asc:desc", "nonexistent", "nonexistent:asc"}), false
 	case "after":
 		return gen.Pick(r, []string{"abc", "-1", "1.5", "18446744073709551616"}), false
 	case "start_time", "end_time":
@@ -528,19 +528,22 @@ const validColumnCursor = `{"column":"id","order":1,"pageSize":15,"filters":{"pi
 const validOffsetCursor = `{"column":"address","order":0,"pageSize":15,"filters":{"qb":{"$match":{"address":"bank"}},"opts":{}},"offset":15}`
 
 // cursors: (value, certainly invalid)
-func genCursor(r *rand.Rand) (string, bool) {
+func genCursor(r *rand.Rand) (string, bool, string) {
 	switch r.Intn(14) {
 	case 0:
-		return b64(validColumnCursor), false
+		return b64(validColumnCursor), false, "valid-column"
 	case 1:
-		return b64(validOffsetCursor), false
+		return b64(validOffsetCursor), false, "valid-offset"
 	case 2:
-		return gen.Pick(r, []string{"abc", "!!!", "====", "bnVsbA==", "é", "\x00", strings.Repeat("A", 10000)}), true
+		return gen.Pick(r, []string{"abc", "!!!", "====", "bnVsbA==", "é", "\x00", strings.Repeat("A", 10000)}), true, "not-base64"
 	case 3:
 		// valid base64 of something that is not a cursor object
-		return b64(gen.Pick(r, []string{"null", "[]", "1", "\"x\"", "true", " ", "{", "{}x", "nul", "[null]"})), true
+		if r.Intn(3) == 0 {
+			return b64("null"), true, "null"
+		}
+		return b64(gen.Pick(r, []string{"[]", "1", "\"x\"", "true", " ", "{", "{}x", "nul", "[null]"})), true, "not-an-object"
 	case 4:
-		return b64(gen.Pick(r, []string{"{}", `{"offset":null}`, `{"offset":0}`, `{"offset":"1"}`, `{"offset":-1}`, `{"offset":1.5}`, `{"offset":18446744073709551616}`, `{"offset":1e2}`})), false
+		return b64(gen.Pick(r, []string{"{}", `{"offset":null}`, `{"offset":0}`, `{"offset":"1"}`, `{"offset":-1}`, `{"offset":1.5}`, `{"offset":18446744073709551616}`, `{"offset":1e2}`})), false, "offset-confusion"
 	case 5:
 		// type confusion on one member of a valid cursor
 		var m map[string]any
@@ -559,25 +562,31 @@ func genCursor(r *rand.Rand) (string, bool) {
 		_ = json.Unmarshal([]byte(GenAny(r, 2).Render()), &v)
 		m[k] = v
 		b, _ := json.Marshal(m)
-		return b64(string(b)), false
+		return b64(string(b)), false, "member-confusion"
 	case 6:
-		return b64(`{"column":"id","order":7,"pageSize":15,"filters":{},"paginationID":1}`), false
+		switch r.Intn(3) {
+		case 0:
+			return b64(`{"column":"id","pageSize":15,"filters":{}}`), true, "no-order"
+		case 1:
+			return b64(`{"column":"id","order":1,"pageSize":15,"filters":{},"paginationID":10}`), false, "no-bottom"
+		}
+		return b64(`{"column":"id","order":7,"pageSize":15,"filters":{},"paginationID":1,"bottom":1}`), false, "bad-order"
 	case 7:
-		return b64(`{"column":"id","pageSize":-5,"filters":{"qb":{"$bad":{"a":1}}}}`), true
+		return b64(`{"column":"id","pageSize":-5,"filters":{"qb":{"$bad":{"a":1}}}}`), true, "bad-filter"
 	case 8:
-		return b64(`{"column":"id","pageSize":15,"filters":{"pit":"garbage"}}`), true
+		return b64(`{"column":"id","pageSize":15,"filters":{"pit":"garbage"}}`), true, "bad-pit"
 	case 9:
-		return b64(`{"column":"id; drop table x","order":1,"pageSize":99999999999,"filters":{"qb":{"$match":{"address":["a"]}}},"bottom":1e400}`), false
+		return b64(`{"column":"id; drop table x","order":1,"pageSize":99999999999,"filters":{"qb":{"$match":{"address":["a"]}}},"bottom":1e400}`), false, "foreign-column"
 	case 10:
-		return b64(`{"column":"id","pageSize":15,"filters":null,"paginationID":"12"}`), false
+		return b64(`{"column":"id","pageSize":15,"filters":null,"paginationID":"12"}`), false, "null-filters"
 	case 11:
-		return b64(`{"column":"id","pageSize":15,"filters":{"expand":"volumes"}}`), true
+		return b64(`{"column":"id","pageSize":15,"filters":{"expand":"volumes"}}`), true, "bad-expand"
 	case 12:
-		return base64.StdEncoding.EncodeToString([]byte(validColumnCursor)) + "==", true
+		return base64.StdEncoding.EncodeToString([]byte(validColumnCursor)) + "==", true, "std-base64"
 	default:
 		raw := make([]byte, 1+r.Intn(40))
 		r.Read(raw)
-		return base64.RawURLEncoding.EncodeToString(raw), true
+		return base64.RawURLEncoding.EncodeToString(raw), true, "random-bytes"
 	}
 }
 
@@ -806,15 +815,18 @@ func genHTTP(c *gen.Ctx) httpIn {
 		k := gen.Pick(r, names)
 		switch k {
 		case "cursor":
-			v, certain := genCursor(r)
+			v, certain, kind := genCursor(r)
 			q.Set("cursor", v)
-			in.Mut, in.Expect = "query:cursor", ""
+			in.Mut, in.Expect = "query:cursor:"+kind, ""
 			if certain {
 				in.Expect = "4xx"
 			}
 		case "query":
 			nt, what := mutateTree(r, bodyFilter(r))
 			v := nt.Render()
+			if r.Intn(5) == 0 {
+				v, what = `{"$match":{"metadata[":"v"}}`, "metadata-bracket"
+			}
 			if r.Intn(4) == 0 {
 				v = damageText(r, v)
 				what = "text"
